@@ -112,6 +112,8 @@ var failKinds = []error{nil, simnet.ErrInjectedTimeout, io.ErrUnexpectedEOF, io.
 type yieldReader struct {
 	toks []xml.Token
 	i    int
+	// eofWithLast: the last token comes together with io.EOF (which the xml.TokenReader contract of xmlstream allows)
+	eofWithLast bool
 }
 
 func (r *yieldReader) Token() (xml.Token, error) {
@@ -121,6 +123,9 @@ func (r *yieldReader) Token() (xml.Token, error) {
 	simrt.Yield("tok")
 	t := r.toks[r.i]
 	r.i++
+	if r.eofWithLast && r.i == len(r.toks) {
+		return xml.CopyToken(t), io.EOF
+	}
 	return xml.CopyToken(t), nil
 }
 
@@ -462,7 +467,7 @@ func runC05(rc *RC) {
 	kinds := []string{"Send", "SendElement", "Encode", "EncodeElement", "SendIQElement", "SendMessageElement", "SendPresenceElement", "EncodeIQ", "SendIQ-get", "TokenWriter", "Encode", "Send"}
 	if ch.Chance("workload", 1, 3) {
 		// callers whose own payload reader fails half way, and callers that use one start element value for two calls
-		kinds = append(kinds, "Send-failing-reader", "SendElement-failing-reader", "SendElement-twice", "SendElement-nameless-start", "Encode-failing-marshaler")
+		kinds = append(kinds, "Send-failing-reader", "SendElement-failing-reader", "SendElement-twice", "SendElement-nameless-start", "Encode-failing-marshaler", "Send-mismatched-end")
 	}
 	var calls []*c05Call
 	var plans [][]*c05Call
@@ -493,10 +498,52 @@ func runC05(rc *RC) {
 		switch c.kind {
 		case "Send":
 			c.spec = genSpec(rc, e.NS, c.marker, false, big)
-			c.err = s.Send(ctx, specReader(c.spec))
+			r := specReader(c.spec).(*yieldReader)
+			if r.eofWithLast = ch.Chance("workload", 1, 4); r.eofWithLast {
+				rc.Fire("eof-with-last-token")
+			}
+			c.err = s.Send(ctx, r)
 		case "SendElement":
 			c.spec = genSpec(rc, e.NS, c.marker, false, big)
-			c.err = s.SendElement(ctx, kidsReader(c.spec), c.spec.start())
+			if ch.Chance("workload", 1, 5) {
+				// a payload of one single token (text), in the shape xmlstream.Token gives it: the token and io.EOF together
+				c.spec.kids = []any{"only " + c.marker}
+				rc.Fire("single-token-payload")
+			}
+			r := kidsReader(c.spec).(*yieldReader)
+			if r.eofWithLast = ch.Chance("workload", 1, 3); r.eofWithLast {
+				rc.Fire("eof-with-last-token")
+			}
+			c.err = s.SendElement(ctx, r, c.spec.start())
+		case "Send-mismatched-end":
+			// a payload one of whose end tags does not match its start tag (a relayed token stream that lost a namespace):
+			// the call fails, and that is all
+			c.spec = genSpec(rc, e.NS, c.marker, false, false)
+			c.expectFail = true
+			var toks []xml.Token
+			c.spec.tokens(&toks)
+			// (an inner one: Send writes the outermost end tag itself, from the start tag it read)
+			var ends []int
+			for i, t := range toks[:len(toks)-1] {
+				if _, ok := t.(xml.EndElement); ok {
+					ends = append(ends, i)
+				}
+			}
+			if len(ends) == 0 {
+				c.expectFail = false
+				c.err = s.Send(ctx, &yieldReader{toks: toks})
+				break
+			}
+			k := ends[ch.Int("workload", len(ends))]
+			end := toks[k].(xml.EndElement)
+			if end.Name.Space != "" && ch.Chance("workload", 1, 2) {
+				end.Name.Space = ""
+			} else {
+				end.Name.Local += "x"
+			}
+			toks[k] = end
+			c.err = s.Send(ctx, &yieldReader{toks: toks})
+			rc.Fire("mismatched-end")
 		case "Send-failing-reader", "SendElement-failing-reader":
 			c.spec = genSpec(rc, e.NS, c.marker, false, big)
 			c.expectFail = true
